@@ -18,6 +18,7 @@ import (
 	"net/http"
 	"os"
 	"path/filepath"
+	"runtime"
 	"sort"
 	"strings"
 	"sync"
@@ -562,6 +563,131 @@ func isolation(tr string, unstarted bool) (ok bool, note string) {
 	return true, ""
 }
 
+// silentPeers: connections that are opened at the listener's address and never say a word (no TLS hello, no HTTP
+// request, no SP header) while the next, well-behaved peer connects: it must get through at once.
+func silentPeers(tr string) (ok bool, note string) {
+	a := wire.New("pair")
+	defer a.Close()
+	ad := wire.Addr(tr)
+	la, err := a.NewListener(ad, wire.Opts(tr, true))
+	if err != nil {
+		return false, "NewListener: " + err.Error()
+	}
+	if err := la.Listen(); err != nil {
+		return false, "Listen: " + err.Error()
+	}
+	network, target := "tcp", ""
+	rest := ad[strings.Index(ad, "://")+3:]
+	if tr == "ipc" {
+		network, target = "unix", rest
+	} else {
+		target = rest
+		if i := strings.Index(target, "/"); i >= 0 {
+			target = target[:i]
+		}
+	}
+	for i := 0; i < 3; i++ {
+		rc, err := net.DialTimeout(network, target, time.Second)
+		if err != nil {
+			return false, "raw connect: " + err.Error()
+		}
+		defer rc.Close()
+	}
+	time.Sleep(30 * time.Millisecond)
+	c := wire.New("pair")
+	defer c.Close()
+	done := make(chan error, 1)
+	go func() { done <- c.DialOptions(ad, wire.Opts(tr, false)) }()
+	select {
+	case err := <-done:
+		if err != nil {
+			return false, "Dial next to silent connections: " + err.Error()
+		}
+	case <-time.After(3 * time.Second):
+		return false, "Dial still blocked 3 s after three connections went silent before their handshake"
+	}
+	_ = c.SetOption(mangos.OptionSendDeadline, time.Second)
+	_ = a.SetOption(mangos.OptionRecvDeadline, 2*time.Second)
+	if err := c.Send([]byte("me too")); err != nil {
+		return false, "Send: " + err.Error()
+	}
+	m, err := a.Recv()
+	if err != nil || string(m) != "me too" {
+		return false, fmt.Sprintf("Recv: %v %q", err, m)
+	}
+	return true, ""
+}
+
+// closeStalledWrite: the peer stops reading (a PULL socket whose application never receives), the connection's
+// buffers fill up and the PUSH side's pipe sits in the transport's write; closing the PUSH socket must still release
+// the pipe (Detached delivered).  Returns (Close returned within 5 s, pipe detached within 3 s).
+func closeStalledWrite(tr string) (bool, bool, string) {
+	const msgSize, msgCount = 512 * 1024, 64
+	puller := wire.New("pull")
+	defer puller.Close()
+	_ = puller.SetOption(mangos.OptionReadQLen, 1)
+	ad := wire.Addr(tr)
+	if err := puller.ListenOptions(ad, wire.Opts(tr, true)); err != nil {
+		return false, false, "Listen: " + err.Error()
+	}
+	pusher := wire.New("push")
+	attached, detached := make(chan struct{}, 4), make(chan struct{}, 4)
+	pusher.SetPipeEventHook(func(ev mangos.PipeEvent, _ mangos.Pipe) {
+		switch ev {
+		case mangos.PipeEventAttached:
+			attached <- struct{}{}
+		case mangos.PipeEventDetached:
+			detached <- struct{}{}
+		}
+	})
+	_ = pusher.SetOption(mangos.OptionWriteQLen, msgCount+1)
+	if err := pusher.DialOptions(ad, wire.Opts(tr, false)); err != nil {
+		_ = pusher.Close()
+		return false, false, "Dial: " + err.Error()
+	}
+	select {
+	case <-attached:
+	case <-time.After(5 * time.Second):
+		_ = pusher.Close()
+		return false, false, "never attached"
+	}
+	body := make([]byte, msgSize)
+	for i := 0; i < msgCount; i++ {
+		if err := pusher.Send(body); err != nil {
+			_ = pusher.Close()
+			return false, false, "Send: " + err.Error()
+		}
+	}
+	stalled := func() bool {
+		buf := make([]byte, 1<<20)
+		g := string(buf[:runtime.Stack(buf, true)])
+		return strings.Contains(g, "(*conn).Send") || strings.Contains(g, "(*connipc).Send") || strings.Contains(g, "(*wsPipe).Send")
+	}
+	ok := false
+	for i := 0; i < 60 && !ok; i++ {
+		time.Sleep(50 * time.Millisecond)
+		ok = stalled()
+	}
+	time.Sleep(200 * time.Millisecond)
+	if !ok || !stalled() {
+		_ = pusher.Close()
+		return true, true, "not exercised: the transport write did not stall"
+	}
+	closed := make(chan struct{})
+	go func() { _ = pusher.Close(); close(closed) }()
+	select {
+	case <-closed:
+	case <-time.After(5 * time.Second):
+		return false, false, "Close of the socket did not return within 5 s"
+	}
+	select {
+	case <-detached:
+		return true, true, ""
+	case <-time.After(3 * time.Second):
+		return true, false, "the pipe was not detached within 3 s of Close: its connection, goroutines and id are still held"
+	}
+}
+
 // send side: what Send writes for a header and a body
 func runSend(r *rand.Rand) string {
 	ipc := r.Intn(2) == 0
@@ -701,6 +827,30 @@ func main() {
 			}
 			late = append(late, fmt.Sprintf("(%q, %s, true)%s", "closing a second listener for an address in use leaves the first one reachable ("+tr+map[bool]string{true: ", never started", false: ", Listen failed"}[un]+")", coqgen.Bool(ok), n))
 		}
+	}
+	for _, tr := range wire.Transports {
+		if tr == "inproc" {
+			continue
+		}
+		ok, note := silentPeers(tr)
+		n := ""
+		if note != "" {
+			n = " (* " + strings.ReplaceAll(note, "*)", "") + " *)"
+			fmt.Fprintln(os.Stderr, "stream: silent peers", tr, note)
+		}
+		late = append(late, fmt.Sprintf("(%q, %s, true)%s", "connections that stay silent before their handshake do not delay the next peer ("+tr+")", coqgen.Bool(ok), n))
+	}
+	for _, tr := range wire.Transports {
+		if tr == "inproc" {
+			continue
+		}
+		ret, det, note := closeStalledWrite(tr)
+		n := ""
+		if note != "" {
+			n = " (* " + strings.ReplaceAll(note, "*)", "") + " *)"
+			fmt.Fprintln(os.Stderr, "stream: close while write stalled", tr, note)
+		}
+		late = append(late, fmt.Sprintf("(%q, %s, %s)%s", "Close while the transport write is stalled (peer not reading) releases the pipe ("+tr+")", coqgen.Bool(ret), coqgen.Bool(det), n))
 	}
 	const shards = 16
 	for k := 0; k < shards; k++ {
